@@ -230,11 +230,13 @@ def build_network(name, order=None, corder=None, cls=MonNet, limits=None, unname
                 # a query in the intermediate state (anything cached per constraint set is now stale)
                 zero = np.zeros((len(st_ids), 1))
                 tpl.is_feasible(zero)
-                tpl.constraint_current(zero, constraints=list(tpl.constraint_index)[-1:])
+                for cname_ in list(tpl.constraint_index):
+                    tpl.constraint_current(zero, constraints=[cname_])
             if hist == "aux":
                 tpl.remove_constraint("aux")
             if hist == "upd" and not unnamed:
-                for i in idx:
+                # corrected in REVERSE order: every row ends up at another position than the one it was queried at
+                for i in reversed(idx):
                     cname, coefs, lim = cons[i]
                     if limits and cname in limits:
                         lim = limits[cname]
